@@ -3,8 +3,7 @@
       QuantizedHnswIndex::search_with_ef  (quantized_hnsw.rs l.347-509): candidate count
             [k * rescore_factor] in usize arithmetic, HNSW search, optional pre-ranking by the
             quantised distance, [rescore_candidates] (exact distance, stable sort, truncate);
-      brute_force_knn's comparator  [a.partial_cmp(b).unwrap_or(Equal)]  (mod.rs l.192) on
-            distances that may be NaN;
+      (brute_force_knn's comparator on NaN distances: Vec/SmallSort.v)
       VectorScanOperator::next  (scan_vector.rs l.278): chunking of the cached result;
       VectorJoinOperator::next / advance_left  (vector_join.rs l.323-439): one search per left
             row, output in chunks of [chunk_capacity].
@@ -64,18 +63,6 @@ Section Pre.
   Definition pre_rank_trunc (key : Z -> option D) (k : Z) (l : list (Z * D)) : list (Z * D) :=
     takez k (sort_by leb (rekey key l)).
 End Pre.
-
-(** ---- partial_cmp(..).unwrap_or(Equal): a distance is [None] when it is NaN ---- *)
-(** "not Greater" under [a.partial_cmp(b).unwrap_or(Equal)] *)
-Definition leb_pc (a b : option Z) : bool :=
-  match a, b with Some x, Some y => x <=? y | _, _ => true end.
-(** the total order of OrderedFloat: NaN greatest *)
-Definition leb_of (a b : option Z) : bool :=
-  match a, b with Some x, Some y => x <=? y | _, None => true | None, Some _ => false end.
-Definition is_nan (d : option Z) : bool := match d with None => true | Some _ => false end.
-(** brute_force_knn over already computed distances (the kernels are tied separately) *)
-Definition brute_keys (leb : option Z -> option Z -> bool) (xs : list (Z * option Z)) (k : Z) : list (Z * option Z) :=
-  brute_force_knn (fun (_ v : option Z) => v) leb xs None k.
 
 (** ---- chunked output of a cached result (VectorScanOperator::next) ---- *)
 Fixpoint chunks_fuel {A} (fuel : nat) (cap : nat) (l : list A) : list (list A) :=
